@@ -67,6 +67,10 @@ func newSchema(table string, master []sqliteMaster) (*Schema, error) {
 		return nil, errors.New("unsupported CREATE TABLE statement")
 	}
 
+	if err := checkConstraintColumns(ct); err != nil {
+		return nil, err
+	}
+
 	st := newCreateTable(ct)
 
 	for _, m := range master {
@@ -81,6 +85,35 @@ func newSchema(table string, master []sqliteMaster) (*Schema, error) {
 	}
 
 	return st, nil
+}
+
+// A PRIMARY KEY or UNIQUE table constraint can only name columns of the table
+// itself (SQLite refuses everything else, expressions included). A stored
+// definition which does otherwise is not something we can interpret.
+func checkConstraintColumns(ct sql.CreateTableStmt) error {
+	has := func(name string) bool {
+		for _, c := range ct.Columns {
+			if strings.EqualFold(c.Name, name) {
+				return true
+			}
+		}
+		return false
+	}
+	for _, c := range ct.Constraints {
+		var cols []sql.IndexedColumn
+		switch c := c.(type) {
+		case sql.TablePrimaryKey:
+			cols = c.IndexedColumns
+		case sql.TableUnique:
+			cols = c.IndexedColumns
+		}
+		for _, col := range cols {
+			if col.Column == "" || !has(col.Column) {
+				return ErrInvalidDef
+			}
+		}
+	}
+	return nil
 }
 
 // transform a `create table` statement into a Schema, which knows which
